@@ -315,7 +315,9 @@ static void dispatch(const std::string& op, const std::vector<int64_t>& h, const
   if (op == "type_equal") { ret_bool(out, gett(h.at(0))->equal(gett(h.at(1)), ia.at(0) != 0)); return; }
   if (op == "arraytype_tostring") { ak::ArrayType t(no_params(), std::string(), gett(h.at(0)), ia.at(0)); ret_str(out, t.tostring()); return; }
 
+  // ops of further translation units (their first handle need not be a content)
   if (dispatch_more(op, h, ia, da, ss, out)) return;
+
   // ------------------------------------------------------------------ everything below works on a content
   const ak::ContentPtr& c = getc(h.at(0));
   ak::Content* raw = c.get();
